@@ -1,9 +1,60 @@
 import CotengraVerif.Driver.Util
+import CotengraVerif.Model.TreeState
 
 namespace Cotengra.Driver.C04
 open Lean Cotengra Cotengra.Driver
 
-/-- ops of property C04 (name them "c04.<op>") -/
-def handlers : List (String × Handler) := []
+def tripleOf (j : Json) : Except String (Node × Node × Node) := do
+  match ← arrOf j with
+  | [p, l, r] => pure (← natList p, ← natList l, ← natList r)
+  | _ => throw "expected [p,l,r]"
+
+def opOf (j : Json) : Except String TS.Op := do
+  let k ← (← field j "k").getStr?
+  match k with
+  | "contract" => pure (.contract (← natList (← field j "x")) (← natList (← field j "y")))
+  | "remove" => pure (.remove (← natList (← field j "p")))
+  | "remove_ind" => pure (.removeInd (← natOf (← field j "ix")) (← (← field j "project").getBool?))
+  | "restore_ind" => pure (.restoreInd (← natOf (← field j "ix")))
+  | _ => throw s!"unknown op kind {k}"
+
+def jState (s : TS) : Json :=
+  let (f, w, m) := s.stats
+  jObj [("children", jArr (s.children.map fun (p, l, r) => jArr [jNats p, jNats l, jNats r])),
+        ("rm", jNats s.rm), ("sliced", jNats s.sliced), ("mult", jNat s.mult),
+        ("flops", jInt f), ("write", jInt w), ("size", jNat m),
+        ("raw_flops", jInt s.flops), ("raw_write", jInt s.write), ("sizes", jNats s.sizes)]
+
+/-- `c04.run`: replay a word of primitives from the state of a complete tree -/
+def run : Handler := fun j => do
+  let n ← netOf (← field j "net")
+  let t ← btOf (← field j "tree")
+  let ops ← (← arrOf (← field j "ops")).mapM opOf
+  let s0 := TS.ofBT n t
+  let (_, outs) := ops.foldl (fun (acc : TS × List Json) o =>
+      let (s', ok) := acc.1.step o
+      (s', acc.2 ++ [jObj [("ok", jBool ok), ("state", jState s')]])) (s0, [])
+  pure (jObj [("init", jState s0), ("steps", jArr outs)])
+
+/-- `c04.scratch`: from-scratch figures of every node of a dumped real tree -/
+def scratch : Handler := fun j => do
+  let n ← netOf (← field j "net")
+  let cs ← (← arrOf (← field j "children")).mapM tripleOf
+  let rm ← natList (← field j "rm")
+  let sliced ← natList (← field j "sliced")
+  let s : TS := { TS.init n with children := cs, rm := rm, sliced := sliced,
+                                 mult := n.mult sliced }
+  let rows := cs.map fun (p, l, r) =>
+    jObj [("p", jNats p), ("legs", jPairs (s.legsOf p)), ("involved", jPairs (s.involvedOf l r)),
+          ("size", jNat (s.sizeOf p)), ("flops", jNat (s.flopsOf l r))]
+  let leaves := (List.range s.N).map fun i =>
+    jObj [("p", jNats [i]), ("legs", jPairs (n.legs rm (.leaf i))),
+          ("pre", jBool (n.leafLegsPre rm i).2), ("size", jNat (n.nodeSize rm (.leaf i)))]
+  pure (jObj [("nodes", jArr rows), ("leaves", jArr leaves), ("mult", jNat s.mult),
+              ("flops", jInt ((s.mult : Int) * s.scratchFlops)),
+              ("write", jInt ((s.mult : Int) * s.scratchWrite)),
+              ("size", jNat (Net.listMax s.scratchSizes))])
+
+def handlers : List (String × Handler) := [("c04.run", run), ("c04.scratch", scratch)]
 
 end Cotengra.Driver.C04
